@@ -153,8 +153,11 @@ def r3(idx, rep):
     detail = f"{[p.result for p in ps]}"
     if ok:
         first, second = ps[0].result[1]
-        ok = first == {"a": 1, "seen": 2, "b": 3} and second == {"a": 1, "seen": 11, "b": 4}
-        detail = f"first call {first}, after the members' variables changed {second}; a reference must see the values the run left (expected seen=11, b=4)"
+        # (both members set `a`: the member that ran later has the last word — docs/variables.md "Sharing Variables": a csvpath's changes
+        # "effectively overwrite any same-name variable that is run before"; print references resolve the same way)
+        ok = first == {"a": 9, "seen": 2, "b": 3} and second == {"a": 9, "seen": 11, "b": 4}
+        detail = (f"first call {first}, after the members' variables changed {second}; a reference must see the values the run left, the later member's for a name both "
+                  "set (expected a=9, then seen=11, b=4)")
     rep.check(ok, "R3", f"{fg.file}::ResultsManager.get_variables is never stale", detail, K.where(fg, fg.node))
     # ---- Reference._variable_value
     fv = idx.method("Reference", "_variable_value")
@@ -219,17 +222,23 @@ def r5(idx, rep):
     fs = c10.FS(["ARCH", "ARCH/p", "ARCH/p/2026-01-02_03-04-05", "ARCH/p/2026-01-02_03-04-05/one", "ARCH/p/2026-01-02_03-04-05/one/data.csv",
                  "ARCH/p/2026-01-02_09-00-00", "ARCH/p/2026-01-02_09-00-00/one", "ARCH/p/2026-01-02_09-00-00/one/data.csv"])
     bad = None
-    for inst, want in (("2026-01-02_03-04-05", "ARCH/p/2026-01-02_03-04-05/one/data.csv"), ("2026-01-02_:last", "ARCH/p/2026-01-02_09-00-00/one/data.csv"),
-                       ("2026-01-:first", "ARCH/p/2026-01-02_03-04-05/one/data.csv")):
+    # (running: the run directory of a run of p that is in progress — a replay of p's own results — or None)
+    for inst, want, running in (("2026-01-02_03-04-05", "ARCH/p/2026-01-02_03-04-05/one/data.csv", None), ("2026-01-02_:last", "ARCH/p/2026-01-02_09-00-00/one/data.csv", None),
+                                ("2026-01-:first", "ARCH/p/2026-01-02_03-04-05/one/data.csv", None),
+                                ("2026-01-02_:last", "ARCH/p/2026-01-02_03-04-05/one/data.csv", "ARCH/p/2026-01-02_09-00-00"),
+                                ("2026-01-02_:last", "ARCH/p/2026-01-02_09-00-00/one/data.csv", "ARCH/other/2026-01-02_09-00-00")):
         h = fs.handlers()
+        h.setdefault("os.path.normpath", lambda i, c, r, a, k: a[0].rstrip("/"))
+        h.setdefault("os.path.dirname", lambda i, c, r, a, k: a[0].rpartition("/")[0])
+        h.setdefault("os.path.basename", lambda i, c, r, a, k: a[0].rpartition("/")[2])
         h["ReferenceParser"] = K.reference_parser_handler(idx)
         h["datetime.datetime.strptime"] = lambda i, c, r, a, k: __import__("datetime").datetime.strptime(a[0], a[1])
         it = Interp(idx, types={"self": "ResultsManager"}, unknown_calls="residual", handlers=h,
                     inline={"ResultsManager._find_instance", "ResultsManager._find_last", "ResultsManager._find_first", "ResultsManager._find", "ResultsManager._find_in_dir_names"})
-        st = {"self._csvpaths.config.archive_path": "ARCH"}
+        st = {"self._csvpaths.config.archive_path": "ARCH", "self._csvpaths._run_time_str": running, "self.csvpaths._run_time_str": running}
         ps = it.run_all(fi, args={"refstr": f"$p.results.{inst}.one"}, store=st)
         if len(ps) != 1 or ps[0].result != ("return", want):
-            bad = bad or f"$p.results.{inst}.one resolves to {[p.result for p in ps]}; documented {want!r}"
+            bad = bad or f"$p.results.{inst}.one (run in progress: {running}) resolves to {[p.result for p in ps]}; documented {want!r}"
     rep.check(bad is None, "R5", f"{fi.file}::ResultsManager.data_file_for_reference model archive", bad or "", K.where(fi, fi.node))
     # the reference parser itself: parts of the documented reference forms (member identities may contain dots)
     fp = idx.method("ReferenceParser", "parse")
